@@ -20,8 +20,8 @@ from haiway import ctx  # noqa: E402
 ID = "C19"
 TECHNIQUE = "exhaustive enumeration of the scope-tree x logger/trace-id/name x log-call grammar on the real context logging, tree-interpreter oracle over captured log records"
 RULE = (
-    "scope trees up to N nodes (inline / spawned children) x per node own logger y/n x own trace "
-    "id y/n x name in {'a', '', '100%', '%s', '%(x)s', 'a b'}; at every position (outside before, "
+    "scope trees up to N nodes (inline / spawned children) x per node own logger y/n x trace id "
+    "{not given, own, empty string} x name in {'a', '', '100%', '%s', '%(x)s', 'a b'}; at every position (outside before, "
     "inside every node before/after its children, outside after) one call per level {debug, "
     "info, warning, error} x (message,args) in 4 forms x optional exception; non-trivial = the "
     "call is made inside a nested scope, or the name / message needs %-handling"
@@ -44,8 +44,9 @@ _root.addHandler(_cap)
 _root.setLevel(logging.DEBUG)
 
 
-def _node_opts(names):
-    return [(lg, tr, nm) for lg in (False, True) for tr in (False, True) for nm in names]
+def _node_opts(names, traces=(0, 1, 2)):
+    # trace option: 0 = not given, 1 = own id (containing '%'), 2 = given as the empty string
+    return [(lg, tr, nm) for lg in (False, True) for tr in traces for nm in names]
 
 
 def programs(tier: str):
@@ -62,7 +63,7 @@ def programs(tier: str):
                     ]
                 }
     if tier == "thorough":
-        opts = _node_opts(["a", "%s"])
+        opts = _node_opts(["a", "%s"], traces=(0, 1))
         for a in opts:
             for b in opts:
                 for c in opts:
@@ -111,15 +112,11 @@ def execute(program, ch: Chooser) -> Result:  # noqa: C901, PLR0915
         return nodes[k]["opt"][2] or "root"
 
     def expected_trace(i: int) -> tuple[str, object]:
-        j = i
-        while j is not None:
-            if nodes[j]["opt"][1]:
-                return ("own", f"trace-n{j}-100%s")
-            j = nodes[j]["parent"]
-        k = i
-        while nodes[k]["parent"] is not None:
-            k = nodes[k]["parent"]
-        return ("fresh-of", k)
+        if nodes[i]["opt"][1] == 1:
+            return ("own", f"trace-n{i}-100%s")
+        if nodes[i]["parent"] is not None:
+            return ("parent", nodes[i]["parent"])  # whatever id the enclosing scope really has
+        return ("fresh", None)
 
     def log_all(where: int | None, pos: str) -> None:
         for lname, lno in LEVELS:
@@ -167,8 +164,10 @@ def execute(program, ch: Chooser) -> Result:  # noqa: C901, PLR0915
         kwargs: dict = {"completion": make_cb(i)}
         if lg:
             kwargs["logger"] = logging.getLogger(f"own.n{i}")
-        if tr:
+        if tr == 1:
             kwargs["trace_id"] = f"trace-n{i}-100%s"
+        elif tr == 2:
+            kwargs["trace_id"] = ""
         async with ctx.scope(name, **kwargs):
             log_all(i, "pre")
             for j, n in enumerate(nodes):
@@ -242,14 +241,18 @@ def execute(program, ch: Chooser) -> Result:  # noqa: C901, PLR0915
             if kind == "own":
                 if m.trace_id != val or f"[{val}]" not in text:
                     viols.append(viol("trace-id", f"own/{witness}", val, [m.trace_id, text]))
-            else:
-                root_m = metrics_of.get(val)
-                if root_m is not None and (m.trace_id != root_m.trace_id or f"[{root_m.trace_id}]" not in text):
+            elif f"[{m.trace_id}]" not in text:
+                viols.append(viol("trace-id", f"not-in-line/{witness}", m.trace_id, text[:80]))
+            elif nodes[i]["opt"][1] == 2 and m.trace_id == "":
+                pass  # given as the empty string and used literally: accepted
+            elif kind == "parent":
+                parent_m = metrics_of.get(val)
+                if parent_m is not None and m.trace_id != parent_m.trace_id:
                     viols.append(
                         viol(
                             "trace-id",
-                            f"inherited/{'nested' if nodes[i]['parent'] is not None else 'top'}",
-                            f"trace id of the outermost scope {root_m.trace_id}",
+                            f"inherited/{'given-empty' if nodes[i]['opt'][1] == 2 else 'not-given'}",
+                            f"trace id of the enclosing scope {parent_m.trace_id}",
                             [m.trace_id, text[:80]],
                         )
                     )
@@ -258,7 +261,7 @@ def execute(program, ch: Chooser) -> Result:  # noqa: C901, PLR0915
             viols.append(viol("tagged", "identifier-not-unique", "pairwise distinct", ids))
         # an outermost scope without own id gets a fresh (non-empty) one
         for i, m in metrics_of.items():
-            if not m.trace_id:
+            if not m.trace_id and nodes[i]["opt"][1] != 2:
                 viols.append(viol("trace-id", "empty", "non-empty", m.trace_id))
         outcome = f"n={len(nodes)}/nested={nested_calls > 0}/pct={percent > 0}"
         seen = set()
